@@ -26,7 +26,7 @@ ID = "C17"
 RULE = ("Hypothesis-generated sequences of 1..6 calls of anneal_qubo/quso/pubo/puso executed in one persistent process "
         "against an ASan+UBSan build of the extension compiled from the working tree: single variable, isolated variables, "
         "Matrix label gaps, degree up to 8, up to 40 terms (many on one spin: realloc growth), no couplings, only an offset, "
-        "stale models whose terms cancelled, a Matrix label of 2.6 million (sub-check huge), empty / zero-temperature schedules, num_anneals 1..50, with/without initial state, "
+        "stale models whose terms cancelled, a Matrix label of 2.6 million (sub-check huge), chains of every size around the powers of two up to 1025 (sub-check sizes), empty / zero-temperature schedules, num_anneals 1..50, with/without initial state, "
         "both visiting orders. Oracle: no sanitizer report, child alive, C11's result oracle per call, identical outcomes of seeded calls under two heap fill patterns (reads of uninitialised memory). "
         "Non-trivial = the sequence reaches the C entry points at least twice with different (function, #variables, #terms) shapes. "
         "Distinct = distinct spec hash.")
@@ -320,8 +320,12 @@ def huge_cases(tier):
         yield {"calls": [call(f, k, sc), small]}
 
 
+size_cases = ag.size_cases
+
+
 def subchecks(tier):
     return [Sub("sequence", sequence(), run_case, quick=3600, thorough=80000),
+            Sub("sizes", None, run_case, quick=0, thorough=0, enumerate=size_cases),
             # expensive (tens of seconds per case under ASan): a handful of cases only
             Sub("huge", None, run_case, quick=0, thorough=0, enumerate=huge_cases, max_shards=6)]
 
